@@ -37,12 +37,22 @@ theorem outcome_trichotomy (objs : List Obj) (classes : List ScanClass) (stop : 
     outcome objs classes stop = WorldDriver.runList objs "" ∨
     outcome objs classes stop = .list [.atom "ok", .list [.atom "peers"]] ∨
     outcome objs classes stop = .list [.atom "err", .atom "other"] := by
-  unfold outcome
-  split
-  · right; right; rfl
-  · split
-    · right; left; rfl
-    · left; rfl
+  cases stop
+  · left; simp [outcome]
+  · by_cases hu : ScanClass.unreadable ∈ classes
+    · right; right; simp [outcome, hu]
+    · by_cases hs : (ScanClass.malformed ∈ classes ∨ hasWorkload objs = false)
+      · right; left
+        rcases hs with hm | hw
+        · simp [outcome, hu, hm]
+        · simp [outcome, hu, hw]
+      · left
+        have hm : ScanClass.malformed ∉ classes := fun h => hs (Or.inl h)
+        have hw : hasWorkload objs = true := by
+          cases h : hasWorkload objs
+          · exact absurd (Or.inr h) hs
+          · rfl
+        simp [outcome, hu, hm, hw]
 
 example : outcome [] [.ignored, .malformed] true = .list [.atom "ok", .list [.atom "peers"]] := by
   apply stop_on_error_no_partial <;> decide
